@@ -23,7 +23,7 @@ ASSUMPTIONS = ["SHRAM LUT window = the last 2 KiB below the reserved banks (arch
                "a 2 KiB table (int16 interpolation) the whole window", "a non-LUT stripe on a configuration without reserved banks (16-bank U55-32/64) "
                "overwrites the LUT window"]
 OUTSIDE = ["per-byte last-writer tracking over emitted command streams of compiled networks", "live-range extraction and buffer sizing wiring over real schedules"]
-BOUNDS = {"lut": "histories of <= 4 LUT operations x {256 B, 2 KiB} x equal-to-earlier/new x optional clobbering stripe, U55-64 (16 banks) and U55-128",
+BOUNDS = {"lut": "histories of <= 4 LUT operations (quick and thorough) x {256 B, 2 KiB} x equal-to-earlier/new x optional clobbering stripe, U55-64 (16 banks) and U55-128",
           "wbuf": "1..7 depth slices, 1 or 2 buffers", "rolling": "see C10 cascade bounds"}
 
 
@@ -266,6 +266,25 @@ def build_twice(V, cin, spilling):
     return cl
 
 
+def memcpy(V, same_area):
+    """dma_feature_map_if_necessary: a feature-map copy (Memcpy) may only be elided when source and destination are the same bytes:
+    same address AND same memory; otherwise the consumer would read bytes nothing wrote."""
+    import ethosu.vela.high_level_command_stream_generator as gen
+    from ethosu.vela.high_level_command_stream import DMA, NOP
+    from ethosu.vela.tensor import MemArea
+
+    sa = V.int("src_address", 0, 1 << 30)
+    da = V.int("dst_address", 0, 1 << 30)
+    src = _Obj(name="src", shape=[1, 4, 4, 16], mem_area=MemArea.Dram, address_for_coordinate=lambda c: sa)
+    dst = _Obj(name="dst", shape=[1, 4, 4, 16], mem_area=MemArea.Dram if same_area else MemArea.Sram, address_for_coordinate=lambda c: da)
+    cmds = list(gen.dma_feature_map_if_necessary(_Obj(name="ps"), src, dst))
+    is_dma = len(cmds) == 1 and isinstance(cmds[0], DMA)
+    is_nop = len(cmds) == 1 and isinstance(cmds[0], NOP)
+    same_bytes = z3.And(L(sa) == L(da), z3.BoolVal(bool(same_area)))
+    return [("exactly one command", len(cmds) == 1), ("the copy is elided only when source and destination are the same bytes in the same memory",
+                                                   z3.BoolVal(is_nop) == same_bytes), ("otherwise a DMA is emitted", z3.BoolVal(is_dma) == z3.Not(same_bytes))]
+
+
 def _tensor(name, shape, dt):
     from ethosu.vela.tensor import Tensor, MemArea, MemType, TensorPurpose
 
@@ -281,13 +300,13 @@ def rolling(V, **params):
     return c10.cascade(V, **params)
 
 
-FUNCS = {"lut": lut, "wbuf": wbuf, "rolling": rolling, "lr_rolling": lr_rolling, "build_twice": build_twice}
+FUNCS = {"lut": lut, "wbuf": wbuf, "rolling": rolling, "lr_rolling": lr_rolling, "build_twice": build_twice, "memcpy": memcpy}
 
 
 def instances(tier, seed):
     out = []
     for accel in ("Ethos_U55_64", "Ethos_U55_128"):
-        for n in ((1, 2, 3) if tier == "quick" else (1, 2, 3, 4)):
+        for n in (1, 2, 3, 4):
             out.append(dict(key="lut/%s/n%d" % (accel, n), fn="lut", params=dict(accel=accel, n=n), weight=10 ** n))
     for nslices in range(1, 8):
         for nbuf in (1, 2):
@@ -295,6 +314,8 @@ def instances(tier, seed):
     for cin in (1, 2, 3, 5, 8):
         for md, od in (("int8", "int8"), ("int16", "int8"), ("int8", "int16"), ("int16", "int16")):
             out.append(dict(key="lr_rolling/cin%d/%s_%s" % (cin, md, od), fn="lr_rolling", params=dict(cin=cin, mid_dtype=md, out_dtype=od)))
+    for same in (0, 1):
+        out.append(dict(key="memcpy/%s" % ("same_area" if same else "other_area"), fn="memcpy", params=dict(same_area=same)))
     for cin in (1, 3, 4):
         for sp in (0, 1):
             out.append(dict(key="build_twice/cin%d/spill%d" % (cin, sp), fn="build_twice", params=dict(cin=cin, spilling=sp), weight=5))
